@@ -632,8 +632,27 @@ def canonical_case(lin: str, vec: dict, flavor: str) -> dict:
     return {"flavor": flavor, "items": items, "opts": {lin: [vec]}, "only": [lin], "allvec": False}
 
 
+def host_cells():
+    """Every expression class x every host statement, in a plain (async for blocking) fn, default options; eight
+    atoms per file."""
+    cells = []
+    for lin in LINTERS:
+        fam = {"unwrap": "u", "clone": "c", "blocking": "b"}[lin]
+        pairs = [(e, hh) for e in _EXPRS_BY_FAM[fam] for hh in rr.HOSTS]
+        vec = {o: o != "allow_expect" for o in OPTS[lin]}  # every detector on, .expect() reported too
+        for flavor in (("std", "tokio") if lin == "blocking" else ("std",)):
+            for i in range(0, len(pairs), 8):
+                body = [{"k": "atom", "e": e, "h": hh, "t": (i + j) % 4, "v": i + j} for j, (e, hh) in enumerate(pairs[i:i + 8])]
+                cells.append({"flavor": flavor, "only": [lin], "allvec": False, "opts": {lin: [vec]}, "items": [
+                    {"k": "fn", "attrs": [], "gap": None, "gapk": "line", "async": lin == "blocking", "pub": False, "gen": False, "body": body}]})
+    return cells
+
+
 def run(ctx):
     ctx.explore(cases(allvec=not ctx.quick), check, max_examples=ctx.n(140, 500))
+    hc = ctx.my_cells(host_cells())
+    done = ctx.each(hc, check)
+    ctx.stats.extra.setdefault("matrix", {})["every expression class x every host statement (17), default options"] = {"cells": len(hc), "done": done}
     cells = []
     for lin in LINTERS:
         for vec in all_vectors(lin):
